@@ -14,6 +14,7 @@
 import Hx.Lemmas.SwarProof
 import Hx.Lemmas.X86Proof
 import Hx.Lemmas.NeonProof
+import Hx.Scan.Dispatch
 namespace Hx
 
 theorem c12_swar (w : Nat) (hw : w = 8 ∨ w = 4) (le : Bool) : (Swar.backend w le).Exact :=
@@ -31,7 +32,7 @@ theorem c12_avx2 (w : Nat) (hw : w = 8 ∨ w = 4) : (X86.avx2Backend w).Exact :=
 theorem c12_neon (le : Bool) : (Gen.Neon.backend 8 le).Exact :=
   ⟨Gen.Neon.uri_exact (Swar.uriScanner_exact 8 (Or.inl rfl) le),
    Gen.Neon.value_exact (Swar.valueScanner_exact 8 (Or.inl rfl) le),
-   Gen.Neon.name_exact (Swar.nameScanner_exact 8 (by omega))⟩
+   Gen.Neon.name_exact (le := le) (Swar.nameScanner_exact 8 (by omega))⟩
 
 /-- every value the runtime feature cache can hold selects an exact backend -/
 theorem c12_dispatch (w : Nat) (hw : w = 8 ∨ w = 4) (f : Nat) : (Runtime.backendFor w f).Exact := by
